@@ -15,6 +15,8 @@ import (
 	"net"
 	"net/http"
 	"os"
+	"runtime/debug"
+	"sort"
 	"strings"
 	"sync"
 	"time"
@@ -37,6 +39,8 @@ type poison struct {
 	Class string `json:"class"`
 	Side  string `json:"side"`
 }
+
+const allocBatchBound = 256 << 20
 
 var (
 	waitSeen   = 8 * time.Second  // how long a peer waits for a reply or a close before it calls the connection silent
@@ -157,16 +161,27 @@ func badHTTPUpstream() string {
 				defer c.Close()
 				r := bufio.NewReader(c)
 				for {
+					first := ""
 					for {
 						line, err := r.ReadString('\n')
 						if err != nil {
 							return
 						}
+						if first == "" {
+							first = line
+						}
 						if line == "\r\n" {
 							break
 						}
 					}
-					c.Write([]byte("BOGUS nonsense, no status line\r\n\x00\x01\x02\r\n\r\n"))
+					switch {
+					case strings.Contains(first, "/bad/cl"): // a body size at the sign bit of an int32, three bytes of body
+						c.Write([]byte("HTTP/1.1 200 OK\r\nContent-Length: 2147483647\r\n\r\nabc"))
+					case strings.Contains(first, "/bad/chunk"):
+						c.Write([]byte("HTTP/1.1 200 OK\r\nTransfer-Encoding: chunked\r\n\r\n7fffffff\r\nabc"))
+					default:
+						c.Write([]byte("BOGUS nonsense, no status line\r\n\x00\x01\x02\r\n\r\n"))
+					}
 				}
 			}(c)
 		}
@@ -185,6 +200,59 @@ func h2Upstream() string {
 	})
 	srv := &http.Server{Handler: h2c.NewHandler(h, &xhttp2.Server{})}
 	go srv.Serve(ln)
+	return ln.Addr().String()
+}
+
+// badH2Upstream speaks enough HTTP/2 to receive a request and answers with malformed frames: for a path with "idx" a
+// HEADERS frame whose block is an indexed field with index 2^63+126, otherwise a frame announcing 2^24-1 bytes.
+func badH2Upstream() string {
+	ln, err := net.Listen("tcp", "127.0.0.1:0")
+	vh.Must(err, "bad h2 upstream")
+	go func() {
+		for {
+			c, err := ln.Accept()
+			if err != nil {
+				return
+			}
+			go func(c net.Conn) {
+				defer c.Close()
+				pre := make([]byte, len(xhttp2.ClientPreface))
+				if _, err := io.ReadFull(c, pre); err != nil {
+					return
+				}
+				fr := xhttp2.NewFramer(c, c)
+				dec := hpack.NewDecoder(4096, nil)
+				fr.WriteSettings()
+				for {
+					f, err := fr.ReadFrame()
+					if err != nil {
+						return
+					}
+					switch x := f.(type) {
+					case *xhttp2.SettingsFrame:
+						if !x.IsAck() {
+							fr.WriteSettingsAck()
+						}
+					case *xhttp2.HeadersFrame:
+						path := ""
+						if hs, err := dec.DecodeFull(x.HeaderBlockFragment()); err == nil {
+							for _, h := range hs {
+								if h.Name == ":path" {
+									path = h.Value
+								}
+							}
+						}
+						if strings.Contains(path, "idx") {
+							blk := append([]byte{0x88}, varint(7, 0x80, (1<<7-1)+(1<<63-1), false)...)
+							c.Write(rawFrame(1, 0x5, x.StreamID, len(blk), blk))
+						} else {
+							c.Write(rawFrame(0, 0, x.StreamID, 1<<24-1, []byte("no such payload")))
+						}
+					}
+				}
+			}(c)
+		}
+	}()
 	return ln.Addr().String()
 }
 
@@ -387,6 +455,30 @@ func poisonBytes(p poison) []byte {
 		return []byte("POST /p HTTP/1.1\r\nHost: c08.test\r\nContent-Length: 99999999999999999999999\r\n\r\nabc")
 	case "http1/header-line-64k":
 		return []byte("GET /p HTTP/1.1\r\nHost: c08.test\r\nX-Big: " + strings.Repeat("a", 65536) + "\r\n\r\n")
+	case "bolt/body-length-2p31m1", "bolt/body-length-2p31":
+		f := boltFrame(1, 77, 0, [][2]string{{"service", "c08"}}, []byte("ping"), 0)
+		v := int64(1<<31 - 1)
+		if strings.HasSuffix(p.Name, "2p31") {
+			v = 1 << 31
+		}
+		putField(f, 18, 4, v)
+		return f
+	case "dubbothrift/outer-length-wraps":
+		f := buildThrift(false, 77)
+		putField(f, 0, 4, 1<<32-4)
+		return f
+	case "http2/headers-hpack-index-2p63", "http2/headers-hpack-index-max-accepted", "http2/headers-hpack-value-length-2p63":
+		blk := append([]byte{0x82, 0x86, 0x84, 0x01, 0x08}, "c08.test"...)
+		switch {
+		case strings.HasSuffix(p.Name, "index-2p63"):
+			blk = append(blk, varint(7, 0x80, 1<<63, false)...)
+		case strings.HasSuffix(p.Name, "max-accepted"):
+			blk = append(blk, varint(7, 0x80, (1<<7-1)+(1<<63-1), false)...)
+		default:
+			blk = append(append(blk, 0x40, 0x03, 'a', 'b', 'c'), varint(7, 0, 1<<63, false)...)
+			blk = append(blk, 'd', 'e', 'f')
+		}
+		return append(h2Preface(), rawFrame(1, 0x5, 1, len(blk), blk)...)
 	case "http2/bad-preface":
 		return []byte("PRI * HTTP/2.0\r\n\r\nXX\r\n\r\n\x00\x00\x00\x04\x00\x00\x00\x00\x00")
 	case "http2/frame-length-2p24":
@@ -406,6 +498,47 @@ func poisonBytes(p poison) []byte {
 		return append(h2Preface(), rawFrame(8, 0, 0, 4, []byte{0, 0, 0, 0})...)
 	case "http2/continuation-without-headers":
 		return append(h2Preface(), rawFrame(9, 0x4, 1, 40, blockB())...)
+	}
+	// families whose name carries the number
+	if p.Proto == "http1" && strings.HasPrefix(p.Name, "content-length-") {
+		v := map[string]string{"2p31m1": "2147483647", "2p31": "2147483648", "2p32m1": "4294967295", "2p32": "4294967296",
+			"2p63m1": "9223372036854775807", "2p63": "9223372036854775808", "2p64m1": "18446744073709551615", "2p64": "18446744073709551616"}[strings.TrimPrefix(p.Name, "content-length-")]
+		if v != "" {
+			return []byte("POST /p HTTP/1.1\r\nHost: c08.test\r\nContent-Length: " + v + "\r\n\r\nabc")
+		}
+	}
+	if p.Proto == "http1" && strings.HasPrefix(p.Name, "chunk-size-") {
+		return []byte("POST /p HTTP/1.1\r\nHost: c08.test\r\nTransfer-Encoding: chunked\r\n\r\n" + strings.TrimPrefix(p.Name, "chunk-size-") + "\r\nabc")
+	}
+	if p.Proto == "http2" && strings.HasPrefix(p.Name, "settings-") {
+		id, v := byte(0), uint32(0)
+		switch strings.TrimPrefix(p.Name, "settings-") {
+		case "header-table-size-2p32m1":
+			id, v = 1, 1<<32-1
+		case "enable-push-2":
+			id, v = 2, 2
+		case "max-streams-2p32m1":
+			id, v = 3, 1<<32-1
+		case "initial-window-2p31":
+			id, v = 4, 1<<31
+		case "initial-window-2p31m1":
+			id, v = 4, 1<<31-1
+		case "max-frame-size-zero":
+			id, v = 5, 0
+		case "max-frame-size-2p24":
+			id, v = 5, 1<<24
+		case "max-frame-size-2p32m1":
+			id, v = 5, 1<<32-1
+		case "max-header-list-zero":
+			id, v = 6, 0
+		default:
+			return nil
+		}
+		return append(h2Preface(), rawFrame(4, 0, 0, 6, append([]byte{0, id}, be32(int(v))...))...)
+	}
+	if p.Proto == "http2" && strings.HasPrefix(p.Name, "window-update-") {
+		v := map[string]uint32{"2p31m1": 1<<31 - 1, "reserved-bit": 1 << 31, "2p32m1": 1<<32 - 1}[strings.TrimPrefix(p.Name, "window-update-")]
+		return append(h2Preface(), rawFrame(8, 0, 0, 4, be32(int(v)))...)
 	}
 	return nil
 }
@@ -446,12 +579,13 @@ func runE2E(casesPath, tracePath string) {
 			Routes: []e2e.RouteSpec{{Prefix: "/", Cluster: "c08boltup", TimeoutMs: 3000, Extra: svc}}}),
 		e2e.BuildListener(e2e.ListenerSpec{Name: "c08h1", Addr: env.addr["http1"], Downstream: "Http1", Upstream: "Http1", Routes: httpRoutes}),
 		e2e.BuildListener(e2e.ListenerSpec{Name: "c08h2", Addr: env.addr["http2"], Downstream: "Http2", Upstream: "Http2",
-			Routes: []e2e.RouteSpec{{Prefix: "/", Cluster: "c08h2up", TimeoutMs: 3000}}}),
+			Routes: []e2e.RouteSpec{{Prefix: "/bad", Cluster: "c08h2bad", TimeoutMs: 3000}, {Prefix: "/", Cluster: "c08h2up", TimeoutMs: 3000}}}),
 	}
 	vh.Must(xprotocol.RegisterXProtocolCodec(&xpCodec{}), "register the panicking codec")
 	lname := map[string]string{panicCodec: "c08xl", "bolt": "c08bolt", "dubbothrift": "c08thrift", "http1": "c08h1", "http2": "c08h2"}
 	clusters := e2e.BuildClusters([]e2e.ClusterSpec{{Name: "c08good", Hosts: []string{good.Addr}}, {Name: "c08bad", Hosts: []string{badHTTP}},
-		{Name: "c08boltup", Hosts: []string{boltUp}}, {Name: "c08h2up", Hosts: []string{h2Upstream()}}})
+		{Name: "c08boltup", Hosts: []string{boltUp}}, {Name: "c08h2up", Hosts: []string{h2Upstream()}},
+		{Name: "c08h2bad", Hosts: []string{badH2Upstream()}}})
 	m := e2e.StartMosn(e2e.BuildConfig(listeners, clusters, e2e.ScratchLog(dir)))
 	defer m.Close()
 	for _, a := range env.addr {
@@ -521,13 +655,10 @@ func runE2E(casesPath, tracePath string) {
 	var hmu sync.Mutex
 	heldConns := []held{}
 	var wg sync.WaitGroup
-	for i, p := range menu {
-		if p.Proto == "http2" && !h2ok {
-			continue
-		}
-		wg.Add(1)
-		go func(i int, p poison) {
-			defer wg.Done()
+	var lastAlloc uint64
+	runPoison := func(i int, p poison, wait time.Duration, attribute bool) {
+		{
+			a0 := allocated()
 			id, c, err := env.newConn(p.Proto)
 			if err != nil {
 				tr.Emit(vh.Ev{"ev": "serve", "c": fmt.Sprintf("%s-dial-%d", p.Proto, i), "ok": false, "what": "dial", "detail": err.Error()})
@@ -556,10 +687,27 @@ func runE2E(casesPath, tracePath string) {
 						beh = "dangling"
 					}
 					c.Write(boltFrame(1, 4242, 0, [][2]string{{"service", "c08"}, {"beh", beh}}, []byte("ping"), 0))
+				} else if p.Proto == "http2" {
+					path := "/badfrm"
+					if strings.Contains(p.Name, "hpack") {
+						path = "/badidx"
+					}
+					blk := append([]byte{0x82, 0x86, 0x04, byte(len(path))}, path...)
+					blk = append(append(blk, 0x01, 0x08), "c08.test"...)
+					c.Write(append(h2Preface(), rawFrame(1, 0x5, 1, len(blk), blk)...))
+					res, detail = observeH2(c, wait)
 				} else {
-					fmt.Fprintf(c, "GET /bad/x HTTP/1.1\r\nHost: c08.test\r\nX-Token: bad%d\r\n\r\n", i)
+					path := "/bad/x"
+					if strings.Contains(p.Name, "content-length") {
+						path = "/bad/cl"
+					} else if strings.Contains(p.Name, "chunk-size") {
+						path = "/bad/chunk"
+					}
+					fmt.Fprintf(c, "GET %s HTTP/1.1\r\nHost: c08.test\r\nX-Token: bad%d\r\n\r\n", path, i)
 				}
-				res, detail = observe(c, r, waitSeen)
+				if p.Proto != "http2" {
+					res, detail = observe(c, r, wait)
+				}
 			} else {
 				b := poisonBytes(p)
 				if b == nil {
@@ -568,18 +716,87 @@ func runE2E(casesPath, tracePath string) {
 				tr.Emit(vh.Ev{"ev": "poison", "c": id, "proto": p.Proto, "name": p.Name, "class": p.Class, "side": p.Side, "bytes": clipHex(b, 48)})
 				c.Write(b)
 				if p.Proto == "http2" {
-					res, detail = observeH2(c, waitSeen)
+					res, detail = observeH2(c, wait)
 					if p.Class == "valid" && res == "reply" && detail != "status 200" {
 						res = "closed" // an error instead of the answer
 					}
 				} else {
-					res, detail = observe(c, r, waitSeen)
+					res, detail = observe(c, r, wait)
 				}
 			}
 			tr.Emit(vh.Ev{"ev": "seen", "c": id, "res": res, "detail": detail, "name": p.Name, "proto": p.Proto})
+			if attribute {
+				// one poison at a time: what the whole process allocated meanwhile is (nearly) its doing
+				lastAlloc = allocated() - a0
+				tr.Emit(vh.Ev{"ev": "alloc", "c": id, "name": p.Name, "proto": p.Proto, "bytes": clampBytes(lastAlloc)})
+			}
+		}
+	}
+	// announced body sizes of HTTP/1 are kept for a phase of their own, one at a time (see below)
+	bodySize := func(p poison) string {
+		for _, fam := range []string{"upstream-content-length", "upstream-chunk-size", "content-length", "chunk-size"} {
+			if p.Proto == "http1" && strings.HasPrefix(p.Name, fam+"-") {
+				return fam
+			}
+		}
+		return ""
+	}
+	batch0 := allocated()
+	for i, p := range menu {
+		if (p.Proto == "http2" && !h2ok) || bodySize(p) != "" {
+			continue
+		}
+		wg.Add(1)
+		go func(i int, p poison) {
+			defer wg.Done()
+			runPoison(i, p, waitSeen, false)
 		}(i, p)
 	}
 	wg.Wait()
+	// nothing of what was sent is longer than 70 KB: memory in the order of the announced lengths was allocated for
+	// bytes that never arrived.  Who did it is found by sending the poisons again, one at a time.
+	batchAlloc := allocated() - batch0
+	tr.Emit(vh.Ev{"ev": "batchalloc", "bytes": clampBytes(batchAlloc), "poisons": len(menu)})
+	if batchAlloc > allocBatchBound {
+		for i, p := range menu {
+			if (p.Proto == "http2" && !h2ok) || p.Side == "up" || bodySize(p) != "" {
+				continue
+			}
+			runPoison(1000+i, p, 1500*time.Millisecond, true)
+		}
+	}
+	// announced HTTP/1 body sizes at the integer boundaries, one at a time with the heap given back in between: a parser
+	// that reserves the announced size would otherwise take gigabytes at once.  After one such answer of a family
+	// (Content-Length / chunk size) the rest of the family is not sent.
+	sized := []int{}
+	for i, p := range menu {
+		if bodySize(p) != "" {
+			sized = append(sized, i)
+		}
+	}
+	sort.Slice(sized, func(a, b int) bool { return menu[sized[a]].Name < menu[sized[b]].Name })
+	reserved := map[string]int{}
+	for _, i := range sized {
+		p := menu[i]
+		fam := bodySize(p)
+		if reserved[fam] >= 1 {
+			tr.Emit(vh.Ev{"ev": "note", "what": "not sent: " + p.Name + " (memory was reserved for an announced size of this kind already)"})
+			continue
+		}
+		runPoison(2000+i, p, time.Second, true)
+		if lastAlloc > 64<<20 {
+			reserved[fam]++
+		}
+		hmu.Lock()
+		if n := len(heldConns); n > 0 {
+			heldConns[n-1].c.Close()
+			tr.Emit(vh.Ev{"ev": "close", "c": heldConns[n-1].id})
+			heldConns = heldConns[:n-1]
+		}
+		hmu.Unlock()
+		time.Sleep(50 * time.Millisecond)
+		debug.FreeOSMemory()
+	}
 
 	// ---- everybody else is still served: the persistent connections and fresh ones
 	probeAll("after-poisons")
